@@ -301,6 +301,26 @@ func c15Docs() []c15Doc {
 		extra := `<bpmn:signal id="sig1" name="sig1"/><bpmn:message id="msg1" name="msg1"/><bpmn:itemDefinition id="item1" structureRef="xs:string"/>`
 		docs = append(docs, c15Doc{"all-kinds", p.XML(extra), nil})
 	}
+	// formal expressions that carry further attributes, the type attribute first, in the middle and last
+	{
+		cond := func(attrs, text string) string {
+			return `<bpmn:conditionExpression ` + attrs + `>` + text + `</bpmn:conditionExpression>`
+		}
+		const ty = `xsi:type="bpmn:tFormalExpression"`
+		docs = append(docs, c15Doc{"formal-expressions-with-attributes", defsHead +
+			`<bpmn:process id="p1" isExecutable="true"><bpmn:startEvent id="start"><bpmn:outgoing>f0</bpmn:outgoing></bpmn:startEvent>` +
+			`<bpmn:exclusiveGateway id="S" default="f4"><bpmn:incoming>f0</bpmn:incoming><bpmn:outgoing>f1</bpmn:outgoing><bpmn:outgoing>f2</bpmn:outgoing><bpmn:outgoing>f3</bpmn:outgoing><bpmn:outgoing>f4</bpmn:outgoing></bpmn:exclusiveGateway>` +
+			`<bpmn:task id="B1"><bpmn:incoming>f1</bpmn:incoming><bpmn:outgoing>g1</bpmn:outgoing></bpmn:task><bpmn:task id="B2"><bpmn:incoming>f2</bpmn:incoming><bpmn:outgoing>g2</bpmn:outgoing></bpmn:task>` +
+			`<bpmn:task id="B3"><bpmn:incoming>f3</bpmn:incoming><bpmn:outgoing>g3</bpmn:outgoing></bpmn:task><bpmn:task id="B4"><bpmn:incoming>f4</bpmn:incoming><bpmn:outgoing>g4</bpmn:outgoing></bpmn:task>` +
+			`<bpmn:endEvent id="end"><bpmn:incoming>g1</bpmn:incoming><bpmn:incoming>g2</bpmn:incoming><bpmn:incoming>g3</bpmn:incoming><bpmn:incoming>g4</bpmn:incoming></bpmn:endEvent>` +
+			`<bpmn:sequenceFlow id="f0" sourceRef="start" targetRef="S"/>` +
+			`<bpmn:sequenceFlow id="f1" sourceRef="S" targetRef="B1">` + cond(`id="ce1" language="`+xpathLang+`" `+ty, "false()") + `</bpmn:sequenceFlow>` +
+			`<bpmn:sequenceFlow id="f2" sourceRef="S" targetRef="B2">` + cond(`id="ce2" `+ty+` evaluatesToTypeRef="item1"`, "1 == 2") + `</bpmn:sequenceFlow>` +
+			`<bpmn:sequenceFlow id="f3" sourceRef="S" targetRef="B3">` + cond(ty+` id="ce3" language="`+xpathLang+`"`, "true()") + `</bpmn:sequenceFlow>` +
+			`<bpmn:sequenceFlow id="f4" sourceRef="S" targetRef="B4"/>` +
+			`<bpmn:sequenceFlow id="g1" sourceRef="B1" targetRef="end"/><bpmn:sequenceFlow id="g2" sourceRef="B2" targetRef="end"/><bpmn:sequenceFlow id="g3" sourceRef="B3" targetRef="end"/><bpmn:sequenceFlow id="g4" sourceRef="B4" targetRef="end"/>` +
+			`</bpmn:process><bpmn:itemDefinition id="item1" structureRef="xs:boolean"/></bpmn:definitions>`, c15RunAll(4)})
+	}
 	// collaboration with two processes, data object with olive body
 	docs = append(docs, c15Doc{"collaboration", defsHead +
 		`<bpmn:collaboration id="col"><bpmn:participant id="pa" name="A" processRef="p1"/><bpmn:participant id="pb" processRef="p2"/><bpmn:messageFlow id="mf" sourceRef="t1" targetRef="s2"/></bpmn:collaboration>` +
